@@ -69,6 +69,17 @@ def check(pid, tier, args):
                 (STATELESS if rep % 2 == 0 else STATELESS[::-1])
             jobs.append(("ungated", "N=%d GOMAXPROCS=%d" % (n, p),
                          [race_bin, "-ungated", ",".join(targets), "-n", str(n), "-procs", str(p), "-file", img]))
+    # first uses of DIFFERENT entry points released together (one target per goroutine, round robin):
+    # the two tables of a space, the tables of different spaces, tables against stateless functions
+    MIXES = [["srgb.from16", "srgb.to16"], ["adobergb.to16", "adobergb.from16"], ["prophotorgb.from16", "prophotorgb.to16"],
+             ["srgb.to16", "srgb.LineariseColor", "displayp3.EncodeColor", "srgb.from16"],
+             ["srgb.from16", "adobergb.from16", "prophotorgb.from16", "srgb.xyz", "ciexyz.adapt"]]
+    for (n, p) in ([(2, 2), (4, 16), (8, 3)] if tier == "quick" else [(n, p) for n in (2, 4, 8, 32) for p in (2, 3, 16)]):
+        for rep in range(2 if tier == "quick" else 20):
+            for mix in MIXES:
+                m = mix if rep % 2 == 0 else mix[::-1]
+                jobs.append(("mixed", "N=%d GOMAXPROCS=%d %s" % (n, p, "+".join(m)),
+                             [race_bin, "-mixed", ",".join(m), "-n", str(n), "-procs", str(p), "-file", img]))
     infeasible = 0
     with ThreadPoolExecutor(max_workers=8) as ex:
         results = list(ex.map(lambda j: run_proc(j[2], env), jobs))
@@ -89,6 +100,24 @@ def check(pid, tier, args):
             run.violation({"finding_key": None, "kind": kind, "schedule_or_trial": desc, "command": " ".join(cmd[1:]),
                            "exit": rc2, "report": head},
                           "%s under %s %s" % (what, kind, desc))
+            if len(run.violations) >= 6:
+                break
+        elif rc == 2 and "panic:" in err and "mandykoh/prism" in err:
+            # one of the library's goroutines panicked and took the process down: an observation of the real
+            # code, claimed once it has been seen a second time
+            seen_again = None
+            for attempt in range(3):
+                rc2, out2, err2 = run_proc(cmd, env)
+                if rc2 == 2 and "panic:" in err2 and "mandykoh/prism" in err2:
+                    seen_again = err2
+                    break
+            if seen_again is None:
+                run.note("a library panic under %s %s did not come back in 3 re-runs: %s" % (kind, desc, err[:300]))
+                raise vlib.Infra("lazyrace died with a library panic that did not reproduce: %s" % err[:600])
+            first = [l for l in seen_again.splitlines() if l.startswith("panic:")][:1]
+            frames = [l.strip() for l in seen_again.splitlines() if "mandykoh/prism" in l][:4]
+            run.violation({"finding_key": None, "kind": kind, "schedule_or_trial": desc, "command": " ".join(cmd[1:]), "stderr": seen_again[:1500]},
+                          "a library goroutine panicked (%s) under %s %s: %s" % (first[0] if first else "panic", kind, desc, "; ".join(frames)[:300]))
             if len(run.violations) >= 6:
                 break
         else:
